@@ -9,6 +9,7 @@ import (
 	"runtime/debug"
 	"sort"
 	"strings"
+	"sync/atomic"
 	"time"
 )
 
@@ -93,8 +94,9 @@ type Ctx struct {
 	Known   *Known
 	Rep     *ShardReport
 	Replay  bool
-	curCase int64
-	journal *os.File
+	curCase   int64
+	caseStart int64
+	journal   *os.File
 	violOut *os.File
 	State   any // per-shard state of the property
 }
@@ -301,7 +303,9 @@ func RunShard(p *Prop, tier string, seed uint64, shard, nshards int, from int64,
 		c.curCase = idx
 		binary.LittleEndian.PutUint64(buf[:], uint64(idx))
 		jf.WriteAt(buf[:], 0)
+		atomic.StoreInt64(&c.caseStart, time.Now().UnixNano())
 		runCaseRecover(c, idx)
+		atomic.StoreInt64(&c.caseStart, 0)
 		rep.Evaluations++
 		if rep.Evaluations%512 == 0 && time.Since(lastFlush) > 2*time.Second {
 			lastFlush = time.Now()
@@ -351,6 +355,8 @@ func runCaseRecover(c *Ctx, idx int64) {
 	c.Prop.RunCase(c, idx)
 }
 
+const caseWatchdog = 180 * time.Second
+
 const repoMod = "github.com/juev/hledger-lsp/"
 
 // topRepoFrame returns the first repository (non-harness) function in a stack trace.
@@ -380,6 +386,13 @@ func trimStack(s string) string {
 func rssWatchdog(c *Ctx) {
 	for {
 		time.Sleep(200 * time.Millisecond)
+		// generous per-case wall-clock watchdog: its firing is inconclusive, never a verdict
+		if st := atomic.LoadInt64(&c.caseStart); st != 0 && time.Now().UnixNano()-st > int64(caseWatchdog) {
+			buf := make([]byte, 1<<20)
+			n := runtime.Stack(buf, true)
+			fmt.Fprintf(os.Stderr, "VERIF-HANG case=%d\n%s\n", c.curCase, buf[:n])
+			os.Exit(98)
+		}
 		b, err := os.ReadFile("/proc/self/statm")
 		if err != nil {
 			continue
